@@ -111,6 +111,13 @@ def nograd_case(name, rng):
     return None
 
 
+def _len_or_one(z):
+    try:
+        return len(z)
+    except TypeError:
+        return 1
+
+
 def main():
     cfg = json.load(sys.stdin)
     rng = random.Random(cfg["seed"])
@@ -311,6 +318,37 @@ def main():
                            {"boxed": seen.get("boxed"), "val": repr(seen.get("val")), "expected": repr(expected)})
             except Exception as ex:
                 record("nograd-method-raised:" + mname, "x=%r" % (x0.tolist(),), False, repr(ex))
+    # ---- len / iter / bool / index on traced values of rank 0 (and bool of several elements): the exception a plain array raises ----
+    for qname, q in (("len(x)", lambda z: len(z)), ("iter(x)", lambda z: list(iter(z))), ("x[0]", lambda z: z[0]), ("bool(x)", lambda z: bool(z)),
+                     ("try-len-except-TypeError", lambda z: (lambda: len(z))() if False else _len_or_one(z)), ("x.shape[0]", lambda z: z.shape[0]),
+                     ("for t in x", lambda z: [t for t in z])):
+        for x0 in (onp.array(2.5), onp.array([1.5, 2.5]), onp.array([[1.5]])):
+            def outcome(v, q=q):
+                try:
+                    r = q(v)
+                    while isbox(r):
+                        r = r._value
+                    return ("ok", repr(onp.asarray(r, dtype=object).tolist() if isinstance(r, list) else r))
+                except Exception as ex:
+                    return ("raised", type(ex).__name__)
+            want = outcome(x0)
+            got = {}
+
+            def fq(z):
+                got["o"] = outcome(z)
+                return anp.sum(z)
+            for opname, run_ in (("rev", lambda: grad(fq)(x0)), ("fwd", lambda: make_jvp(fq)(x0)(onp.ones_like(x0)))):
+                got.clear()
+                try:
+                    run_()
+                except Exception:
+                    pass
+                o = got.get("o")
+                if o and o[0] == "ok" and want[0] == "ok":
+                    ok = True                       # values of such queries are compared elsewhere (type queries, METHODS)
+                else:
+                    ok = o == want
+                record("query-parity:%s:%s" % (qname, opname), "shape=%s" % (x0.shape,), ok, {"traced": o, "plain": want})
     # ---- operators with piecewise-constant results on traced arrays: NumPy's value exactly, or a loud refusal ----
     for oname, of in (("x // h", lambda x, h: x // h), ("h // x", lambda x, h: h // x), ("divmod(x, h)[0]", lambda x, h: divmod(x, h)[0]),
                       ("x // h (array h)", lambda x, h: x // (h * onp.ones_like(x))), ("round(x / h)", lambda x, h: round(x[0] / h)),
